@@ -99,3 +99,67 @@ func c03Sections() *core.Scenario {
 		},
 	}
 }
+
+// c03AlignbOrigins: ALIGNB pads the ADDRESS to a multiple of n - with an ORG that is not itself a multiple of n the
+// padding differs from "offset since ORG"; pass 1 and the emitted padding must agree, or every later label is displaced.
+func c03AlignbOrigins() *core.Scenario {
+	orgs := []int64{0x7c01, 0x7c04, 0x7c0f, 0x101, 0x7c00, 0}
+	units := []int64{2, 4, 8, 16, 0x100, 0x1000}
+	return &core.Scenario{
+		Name: "alignb_with_unaligned_org", Bound: -1,
+		Rule:   "ORG in {0x7c01, 0x7c04, 0x7c0f, 0x101, 0x7c00, none} x ALIGNB n in {2,4,8,16,0x100,0x1000} x 0..3 bytes in front x BITS: the label behind the padding must hold its sentinel-located address (DW/DD label, MOV r,label) and the address must be a multiple of n",
+		Bounds: map[string]any{"origins": orgs, "units": units},
+		Build: func(c *core.Chooser) *core.Case {
+			mode := []int{16, 32}[c.Pick("mode", 2)]
+			org := orgs[c.Pick("org", len(orgs))]
+			n := units[c.Pick("unit", len(units))]
+			k := c.Pick("bytes_before", 4)
+			hdr := ""
+			if mode == 32 {
+				hdr = "[BITS 32]\n"
+			}
+			if org != 0 {
+				hdr += fmt.Sprintf("\tORG 0x%x\n", org)
+			}
+			before := ""
+			if k > 0 {
+				before = "\tDB " + strings.TrimSuffix(strings.Repeat("7,", k), ",") + "\n"
+			}
+			src := hdr + before + fmt.Sprintf("\tALIGNB %d\nlab:\n", n) + sentinelLine(0) + "\tDD lab\n" + sentinelLine(1) + "\tMOV EBX,lab\n"
+			return &core.Case{
+				Key:  fmt.Sprintf("BITS %d|ORG 0x%x|%d bytes|ALIGNB %d", mode, org, k, n),
+				Feat: feat("mode", fmt.Sprint(mode), "org", fmt.Sprintf("0x%x", org), "unit", fmt.Sprint(n)),
+				Srcs: []string{src},
+				Judge: func(rs []*core.Result) core.Verdict {
+					r := rs[0]
+					v := core.Verdict{}
+					if core.ReportsError(r, nil) {
+						v.Outcome = "diagnosed"
+						return v
+					}
+					s0, s1 := findSentinel(r.Out, 0), findSentinel(r.Out, 1)
+					if s0 < 0 || s1 != s0+12 {
+						v.Outcome = "no_sentinels"
+						v.Fails = []core.Fail{{Facet: "layout", Dev: "sentinels_lost", Detail: hexs(r.Out[:min(len(r.Out), 48)])}}
+						return v
+					}
+					v.Outcome = "assembled"
+					v.Nontrivial = true
+					real := org + int64(s0)
+					if real%n != 0 {
+						v.Fails = append(v.Fails, core.Fail{Facet: "alignment", Dev: fmt.Sprintf("residue:%d", real%n), Detail: fmt.Sprintf("the statement behind ALIGNB %d stands at %#x", n, real)})
+					}
+					if got := rdle(r.Out[s0+8 : s0+12]); got != real {
+						v.Fails = append(v.Fails, core.Fail{Facet: "label_value", Dev: fmt.Sprintf("DD:%+d", clampDiff(got-real)), Detail: fmt.Sprintf("DD lab holds %#x, the label is at %#x", got, real)})
+					}
+					if !r.ViaCLI && !r.Died && r.Sym != nil {
+						if sv, ok := r.Sym["lab"]; ok && int64(sv) != real {
+							v.Fails = append(v.Fails, core.Fail{Facet: "size_estimate", Dev: fmt.Sprintf("sym:%+d", clampDiff(int64(sv)-real)), Detail: fmt.Sprintf("pass 1 has lab at %#x, it is at %#x", sv, real)})
+						}
+					}
+					return v
+				},
+			}
+		},
+	}
+}
